@@ -191,7 +191,29 @@ Definition run_stb (ts : list str) : str :=
                                         (copy_stable pol cancel prog {| s_kv := kvs; s_int := ints |}
                                                      empty_sstore extra extra_int)
                                         (known_int_keys ++ extra_int) (known_keys ++ extra)
-                                  | _ => s_bad
+                                  | Some (ints, r8) =>
+                                      (* optional: what the destination holds before the copy *)
+                                      match count r8 with
+                                      | Some (ndkv, r9) =>
+                                          match take_kvs ndkv r9 with
+                                          | Some (dkvs, r10) =>
+                                              match count r10 with
+                                              | Some (ndint, r11) =>
+                                                  match take_ints ndint r11 with
+                                                  | Some (dints, []) =>
+                                                      show_sresult
+                                                        (copy_stable pol cancel prog {| s_kv := kvs; s_int := ints |}
+                                                                     {| s_kv := dkvs; s_int := dints |} extra extra_int)
+                                                        (known_int_keys ++ extra_int) (known_keys ++ extra)
+                                                  | _ => s_bad
+                                                  end
+                                              | None => s_bad
+                                              end
+                                          | None => s_bad
+                                          end
+                                      | None => s_bad
+                                      end
+                                  | None => s_bad
                                   end
                               | None => s_bad
                               end
